@@ -201,6 +201,12 @@ class HTMLUnicodeInputStream(object):
         # Deal with CR LF and surrogates split over chunk boundaries
         self._bufferedCharacter = None
 
+        # The previous chunk and the position of its start, so that unget()
+        # can move the position back across a chunk boundary
+        self._lastChunk = ""
+        self._lastChunkStart = (0, 0)
+        self._ungottenFromLastChunk = 0
+
     def openStream(self, source):
         """Produces a file object from source.
 
@@ -250,6 +256,9 @@ class HTMLUnicodeInputStream(object):
         if chunkSize is None:
             chunkSize = self._defaultChunkSize
 
+        self._lastChunk = self.chunk
+        self._lastChunkStart = (self.prevNumLines, self.prevNumCols)
+        self._ungottenFromLastChunk = 0
         self.prevNumLines, self.prevNumCols = self._position(self.chunkSize)
 
         self.chunk = ""
@@ -370,6 +379,18 @@ class HTMLUnicodeInputStream(object):
                 # chunk:
                 self.chunk = char + self.chunk
                 self.chunkSize += 1
+                # The character was already counted as part of the previous
+                # chunk: take it out of the position bookkeeping again
+                self._ungottenFromLastChunk += 1
+                end = len(self._lastChunk) - self._ungottenFromLastChunk
+                if end >= 0:
+                    nLines = self._lastChunk.count('\n', 0, end)
+                    lastLinePos = self._lastChunk.rfind('\n', 0, end)
+                    self.prevNumLines = self._lastChunkStart[0] + nLines
+                    if lastLinePos == -1:
+                        self.prevNumCols = self._lastChunkStart[1] + end
+                    else:
+                        self.prevNumCols = end - (lastLinePos + 1)
             else:
                 self.chunkOffset -= 1
                 assert self.chunk[self.chunkOffset] == char
